@@ -6,7 +6,7 @@ CONFIG = {
         "files": ["crypto/merkletrie/zz_verif_c17_test.go"],
         "util": [("crypto/merkletrie", "merkletrie")],
         "env": {
-            "quick": {"VERIF_C17_KEYS": 4, "VERIF_C17_LEN": 4, "VERIF_C17_HASH_EVERY": 6,
+            "quick": {"VERIF_C17_KEYS": 4, "VERIF_C17_LEN": 4, "VERIF_C17_HASH_EVERY": 10,
                       "VERIF_C17_RANDOM": 150, "VERIF_C17_RANDOM_OPS": 120, "VERIF_C17_CYCLES": 1500, "VERIF_C17_MALFORMED": 200},
             "thorough": {"VERIF_C17_KEYS": 4, "VERIF_C17_LEN": 5, "VERIF_C17_HASH_EVERY": 8,
                          "VERIF_C17_RANDOM": 3000, "VERIF_C17_RANDOM_OPS": 200, "VERIF_C17_CYCLES": 30000, "VERIF_C17_MALFORMED": 3000},
@@ -19,7 +19,7 @@ CONFIG = {
             "fan-out thresholds 1..64); plus random long sequences over random 32-byte (and 1..6-byte) keys with forced shared prefixes under random page "
             "configurations, plus commit/evict/reload cycles with branch-local changes under tiny page configurations (1500 / 30000 sequences), plus a malformed stream (wrong lengths, empty elements). Observed: every Add/Delete/Commit/Evict result, every RootHash digest, "
             "the final digest vs the digest of a fresh trie built from the sorted final set, and the stored trie read back node by node. "
-            "Digests are recomputed by the model's own SHA-512/256 on every 6th (8th) exhaustive case and 1/6 (1/8) of the random ones. "
+            "Digests are recomputed by the model's own SHA-512/256 on every 10th (8th) exhaustive case, 1/10 (1/8) of the random and 1/40 (1/32) of the cycle sequences. "
             "A case is non-trivial when at least two Add/Delete calls changed the set; distinct = distinct case lines.",
     "exhaustive": {"quick": True, "thorough": True},
     "explanation": "theorems: for every finite history of Add/Delete/Commit/Evict/reload/RootHash over byte strings of any length the logical trie "
